@@ -2,6 +2,7 @@
 pub mod builder;
 pub mod grad;
 pub mod hist;
+pub mod io;
 pub mod mapgen;
 pub mod prng;
 pub mod runner;
